@@ -7,7 +7,7 @@ from suites import run_suite
 
 LEAN_MODULES = ['GoSnaps.Props.C11', 'GoSnaps.Props.Tie.Path', 'GoSnaps.Props.Tie.Wrappers', 'GoSnaps.Props.Tie.Caller', 'GoSnaps.Props.C11Standalone']
 
-DIRS = ['-', 'snaps', 'a/b/__snapshots__', '../shared', './x/../y', '/abs/dir', '/abs/./d/../e/', 'cov%d/100%']
+DIRS = ['-', '', 'snaps', 'a/b/__snapshots__', '../shared', './x/../y', '/abs/dir', '/abs/./d/../e/', 'cov%d/100%']
 FILES = ['-', 'custom', 'my_test', 'api.v1', 'with.two.dots', 'rate_100%s', 'api/users']
 EXTS = ['-', '.txt', '.json', '.%v']
 NAMES = ['TestA', 'TestA/sub_case', 'TestA/x/y', 'TestB#01', 'TestR/ratio/1.25', 'TestV1.2'] + PUNCT_NAMES + [n.decode() if isinstance(n, bytes) else n for n in PCT_NAMES] + [
@@ -40,7 +40,7 @@ def path_worlds():
     for d, fn, ext in itertools.product(DIRS, FILES, EXTS):
         n += 1
         w = World('path-%d' % n)
-        w.add('cfgrel 1 %s %s %s' % (hx(d) if d != '-' else '-', hx(fn) if fn != '-' else '-', hx(ext) if ext != '-' else '-'))
+        w.add('cfgrel 1 %s %s %s' % ('=' if d == '' else hx(d) if d != '-' else '-', hx(fn) if fn != '-' else '-', hx(ext) if ext != '-' else '-'))
         for name in NAMES:
             for sa in (0, 1):
                 def exp(line, raw, ww, d=d, fn=fn, ext=ext, name=name, sa=sa):
@@ -103,7 +103,7 @@ def gen_program(r, idx):
     """a small module; returns (files, expected locations relative to module root, description)"""
     pkgdir = r.choice(['', 'sub', 'sub/pkg/deep'])
     pkgname = 'prog' if not pkgdir else pkgdir.split('/')[-1]
-    shapes = sorted(set(['direct', 'helper-nontest', 'closure', 'goroutine', 'subtest', 'deep-helpers', 'standalone', 'config', 'suite-nontest', 'deep-recursion', 'dotted-names', 'punct-names', 'shared-helper', 'shared-helper', 'dotted-files']))
+    shapes = sorted(set(['direct', 'helper-nontest', 'closure', 'goroutine', 'subtest', 'deep-helpers', 'standalone', 'config', 'suite-nontest', 'deep-recursion', 'dotted-names', 'punct-names', 'shared-helper', 'shared-helper', 'dotted-files', 'helper-testfile']))
     # every shape at least once per run, then random ones
     shape = shapes[idx] if idx < len(shapes) else r.choice(shapes)
     # (test file names with further dots: `orders.v2_test.go`, `api.pb_test.go` - only `.go` is an extension)
@@ -132,6 +132,13 @@ def gen_program(r, idx):
         body = 'func TestShape(t *testing.T) {\n\tcheck(t, "v")\n}\n\nfunc TestZLast(t *testing.T) {\n\tcheck(t, "z")\n}\n'
         exp += [posixpath.join(base, stem + '.snap'), posixpath.join(base, other[:-3] + '.snap'), posixpath.join(base, 'TestShape_1.snap'),
                 posixpath.join(base, 'TestZLast_1.snap'), posixpath.join(base, 'TestOther_1.snap'), posixpath.join(base, 'TestOther_sub_1.snap')]
+    elif shape == 'helper-testfile':
+        # the usual `helpers_test.go` layout: the assertion helper lives in ANOTHER *_test.go file than the test
+        # function; the snapshot belongs to the test file nearest to the call (the helper's), for every test using it
+        other = 'helpers%d_test.go' % idx
+        files[posixpath.join(pkgdir, other)] = 'package %s\n\nimport (\n\t"testing"\n\t"github.com/gkampitakis/go-snaps/snaps"\n)\n\nfunc assertSnap(t *testing.T, v any) {\n\tt.Helper()\n\tsnaps.MatchSnapshot(t, v)\n}\n' % pkgname
+        body = 'func TestShape(t *testing.T) {\n\tassertSnap(t, "v")\n\tt.Run("sub", func(t *testing.T) { assertSnap(t, "w") })\n}\n'
+        exp.append(posixpath.join(base, other[:-3] + '.snap'))
     elif shape == 'suite-nontest':
         # the subtest body is a function of a non-test file: below testing.tRunner there is no
         # *_test.go frame, the outermost user file names the snapshot
